@@ -46,10 +46,11 @@ Fixpoint d_yaml_import (y : ynode) (root : doc) : doc * bool :=
       (r, ok)
   end.
 
-(* the public importers: a document REPLACES the destination - the result is the import into the EMPTY
-   document and does not mention the old one; when no document could be read the destination is unchanged *)
+(* the public importers: a document that can be imported REPLACES the destination - the result is the import
+   into the EMPTY document and does not mention the old one; when no document could be read, or the import
+   of the document fails (a key that is no descriptor), the destination is unchanged (fix DO90) *)
 Definition d_import_public (l : yload) (root : doc) : doc * bool :=
   match l with
   | YSyntaxError | YEmptyDocument => (root, false)
-  | YDocument y => d_yaml_import y DNull
+  | YDocument y => let '(d, ok) := d_yaml_import y DNull in if ok then (d, true) else (root, false)
   end.
